@@ -151,7 +151,7 @@ class C16(Prop):
         out = []
         for i in range(n):
             sid = "c16_%d" % i
-            fam = rng.choice(["echo", "echo", "echo", "cut", "cut", "kinds", "overflow", "offline", "link", "big", "f14"])
+            fam = rng.choice(["echo", "echo", "echo", "cut", "cut", "kinds", "overflow", "offline", "link", "big", "f14", "midread"])
             cfg = {"timeout": TIMEOUT}
             if rng.chance(1, 8):
                 cfg["decode"] = rng.choice([1, 3])
@@ -264,6 +264,24 @@ class C16(Prop):
                     else:
                         s.sleep(TIMEOUT + 3)
                 s.sleep(TIMEOUT + 20)
+            elif fam == "midread":
+                # a stop (disable / link failure / shutdown) or a removal BETWEEN the fragments of a multi-fragment READ:
+                # the read ends there with the matching error, nothing more is transmitted (seeded change R7_v)
+                tok = s.user("read", rng.choice(["class:15", "class:1", "hdr:1e0106"]))
+                seq = s.take_seq()
+                k = rng.range(1, 3)
+                for j in range(k):
+                    o = rand_objs(rng, 2)
+                    s.rx(response(ctrl(j == 0, 0, 1, 0, (seq + j) & 15), 0, 0, o.data), "ok", o.items)
+                    s.take_seq()
+                s.op(rng.choice(["disable", "disable", "drop_io", "shutdown"]))
+                if rng.chance(1, 2):
+                    o = rand_objs(rng, 1)
+                    s.rx(response(ctrl(0, 1, 0, 0, (seq + k) & 15), 0, 0, o.data), "ok", o.items)
+                if rng.chance(1, 2):
+                    self.other_request(s, rng)
+                s.op(rng.choice(["enable", "connect"]))
+                s.sleep(3 * TIMEOUT)
             elif fam == "overflow":
                 s.cfg["maxq"] = rng.range(1, 3)
                 for _ in range(rng.range(3, 7)):
@@ -402,6 +420,11 @@ class C16(Prop):
                     if operate_tx[2:] != pre.objs or (operate_tx[0] & 15) != ((pre.seq + 1) & 15) or operate_tx[0] & 0xF0 != 0xC0:
                         fails.append(("operate-after-faithful-select",
                                       "OPERATE does not carry the SELECT's objects with the next sequence number: " + where))
+
+            # a disable / shutdown / link failure ends the running task in the step in which it happens - in EVERY phase
+            # of the task (seeded change R7_v: a disable between the fragments of a READ was swallowed)
+            if op[0] in ("disable", "shutdown", "drop_io") and pre_running is not None and running == pre_running:
+                fails.append(("stop-ignored", "the running task %s survived `%s`: no outcome in that step: %s" % (pre_running, op[0], where)))
 
             # judge every completion of this step
             for w in words:
